@@ -281,8 +281,8 @@ def _worker(job):
 
 def scope(tier: str):
     if tier == "quick":
-        return {"depths": [1, 2], "max_rows": 3, "cap": 40, "per_spec": {1: 4, 2: 2, 3: 0}}
-    return {"depths": [1, 2, 3], "max_rows": 4, "cap": 64, "per_spec": {1: 8, 2: 4, 3: 1}}
+        return {"depths": [1, 2], "max_rows": 3, "cap": 40, "per_spec": {1: 4, 2: 1, 3: 0}}
+    return {"depths": [1, 2, 3], "max_rows": 4, "cap": 64, "per_spec": {1: 8, 2: 3, 3: 1}}
 
 
 INDEX_KINDS = ("default",) + REINDEXINGS
